@@ -20,7 +20,6 @@ OBLIGATIONS = {
                ('o13_1_bytes_separator_3_3', 't'), ('o13_1_bytes_successor_1', 'qt'), ('o13_1_bytes_successor_2', 'qt'), ('o13_1_bytes_successor_3', 't'),
                ('o13_1_ikey_separator_1_1', 'qt'), ('o13_1_ikey_separator_2_2', 'qt'), ('o13_1_ikey_separator_2_1', 't'),
                ('o13_1_ikey_successor_1', 'qt'), ('o13_1_ikey_successor_2', 'qt')]),
-    'O13.2': ('internal key byte encoding round trip', [('o13_2_ikey_roundtrip_0', 'qt'), ('o13_2_ikey_roundtrip_2', 'qt')]),
     'O14.1': ('Bloom filter answers true for every key it was created from (also when read by a policy with another bits_per_key)',
               [('o14_1_bloom_b10_l1_l4', 'qt'), ('o14_1_bloom_b1_l0_l3', 'qt'), ('o14_1_bloom_reader_other_bits', 'qt'), ('o14_1_bloom_b64_l5_l1', 't'), ('o14_1_bloom_b9_l4_l4', 't'), ('o14_1_bloom_b43_l3_l5', 't')]),
     'O15.1': ('unmask(mask(x)) = x for every u32', [('o15_1_crc_mask_roundtrip', 'qt')]),
@@ -136,9 +135,21 @@ def run(names, tier, seed, work, jobs):
     for n in names:
         for h, tiers in OBLIGATIONS[n][1]:
             if tkey in tiers: tasks.append((n, h))
-    with concurrent.futures.ThreadPoolExecutor(max_workers=max(1, min(jobs, 6))) as pool:
-        futs = {pool.submit(run_harness, h, base_td, t_quick if tier == 'quick' else t_thor, 8 if tier == 'quick' else 16): (n, h) for n, h in tasks}
-        per = {}
+    # one private copy of the compiled target directory per worker: concurrent kani-driver runs in one directory disturb each other
+    import queue
+    nworkers = max(1, min(jobs, 6, len(tasks)))
+    slots = queue.Queue()
+    for i in range(nworkers):
+        d = '%s-w%d' % (base_td, i)
+        subprocess.run(['rsync', '-a', '--delete', base_td + '/', d + '/'])
+        slots.put(d)
+    def work(h):
+        d = slots.get()
+        try: return run_harness(h, d, t_quick if tier == 'quick' else t_thor, 8 if tier == 'quick' else 16)
+        finally: slots.put(d)
+    per = {}
+    with concurrent.futures.ThreadPoolExecutor(max_workers=nworkers) as pool:
+        futs = {pool.submit(work, h): (n, h) for n, h in tasks}
         for f in concurrent.futures.as_completed(futs):
             n, h = futs[f]; per.setdefault(n, []).append(f.result())
     for n in names:
